@@ -7,6 +7,7 @@ import (
 	"encoding/json"
 	"flag"
 	"fmt"
+	"math/rand"
 	"os"
 	"regexp"
 	"sort"
@@ -55,6 +56,7 @@ type wld struct {
 	Label map[string]string `json:"label"`
 	L     []listener        `json:"l"`
 	Rt    []route           `json:"rt"`
+	Same  bool              `json:"samepath"`
 }
 
 type tcpObs struct {
@@ -66,6 +68,7 @@ type backObs struct {
 	S   string  `json:"s"`
 	Grp [][]int `json:"grp"` // per backendRef, the weights written on its servers (-1: server missing)
 	Xtr int     `json:"xtr"` // servers that belong to no backendRef
+	Bal string  `json:"bal"` // balance algorithm of the backend
 }
 
 type obs struct {
@@ -79,6 +82,10 @@ type rec struct {
 	Step int             `json:"step"`
 	W    json.RawMessage `json:"w"`
 	Obs  obs             `json:"obs"`
+	// Det: further runs of the same history, with the lists of the API in another order, wrote the same configuration
+	Det     bool     `json:"det"`
+	DetDiff []string `json:"detdiff"`
+	nf      *cfgnf.NF
 }
 
 func nsIdx(ns string) int {
@@ -140,7 +147,7 @@ func mkListener(name string, port int, l listener, own string) kobj.Listener {
 	return kl
 }
 
-var rtNames = []string{"rt1", "rt2"}
+var rtNames = []string{"rtz", "rta"} // the older route has the greater name
 var hostSets = [][]string{nil, {"h1.local"}, {"h1.local", "h2.local"}}
 
 // objects a world consists of, keyed by kind/ns/name
@@ -164,7 +171,15 @@ func objects(w wld) (map[string]client.Object, []client.Object) {
 	for _, ns := range []string{"g", "r"} {
 		for s := 1; s <= 3; s++ {
 			name := fmt.Sprintf("s%d", s)
-			add(kobj.Service(ns, name, nil, ":8080:8080"))
+			// conflicting backend scoped annotations: the first backendRef of a rule wins
+			var sann map[string]string
+			switch s {
+			case 1:
+				sann = map[string]string{"haproxy-ingress.github.io/balance-algorithm": "leastconn"}
+			case 2:
+				sann = map[string]string{"haproxy-ingress.github.io/balance-algorithm": "first"}
+			}
+			add(kobj.Service(ns, name, sann, ":8080:8080"))
 			var eps []string
 			for n := 1; n <= s; n++ {
 				eps = append(eps, epAddr(ns, s, n)+":p")
@@ -185,7 +200,11 @@ func objects(w wld) (map[string]client.Object, []client.Object) {
 			backs = append(backs, kobj.BackendRef{Svc: fmt.Sprintf("s%d", b.S), Port: 8080, Weight: b.W})
 		}
 		if rt.Kind == "HTTPRoute" {
-			add(kobj.HTTPRoute(rt.Ns, rtNames[k], k+1, refs, hostSets[rt.Hostnames], fmt.Sprintf("/p%d", k+1), backs))
+			path := fmt.Sprintf("/p%d", k+1)
+			if w.Same {
+				path = "/p1"
+			}
+			add(kobj.HTTPRoute(rt.Ns, rtNames[k], k+1, refs, hostSets[rt.Hostnames], path, backs))
 		} else {
 			add(kobj.TCPRoute(rt.Ns, rtNames[k], k+1, refs, backs))
 		}
@@ -248,13 +267,25 @@ func observe(w *world.World, cur wld) (obs, error) {
 			b.Grp = append(b.Grp, g)
 		}
 		b.Xtr = len(sw) - used
+		b.Bal = "roundrobin"
+		for _, sec := range raw.Sections {
+			if sec.Kind == "backend" && sec.Name == name {
+				for _, l := range sec.Lines {
+					if f := strings.Fields(l); len(f) >= 2 && f[0] == "balance" {
+						b.Bal = f[1]
+					}
+				}
+			}
+		}
 		o.Backs = append(o.Backs, b)
 	}
 	return o, nil
 }
 
-func runHistory(base, id string, steps []wld, rawSteps []json.RawMessage) ([]rec, error) {
-	w, err := world.New(base, nil, pipeline.Options{WatchWithoutClass: true, Gateway: true})
+func runHistory(base, id string, seed int64, steps []wld, rawSteps []json.RawMessage) ([]rec, error) {
+	// the API server returns lists in a random order
+	cli := &pipeline.ShuffleClient{Client: pipeline.NewClient(), Rnd: rand.New(rand.NewSource(seed))}
+	w, err := world.New(base, cli, pipeline.Options{WatchWithoutClass: true, Gateway: true})
 	if err != nil {
 		return nil, err
 	}
@@ -299,7 +330,11 @@ func runHistory(base, id string, steps []wld, rawSteps []json.RawMessage) ([]rec
 		if err != nil {
 			return nil, err
 		}
-		recs = append(recs, rec{ID: id, Step: i, W: rawSteps[i], Obs: ob})
+		raw, err := cfgnf.Load(w.Opt.CfgDir(), w.Opt.Dir)
+		if err != nil {
+			return nil, err
+		}
+		recs = append(recs, rec{ID: id, Step: i, W: rawSteps[i], Obs: ob, Det: true, DetDiff: []string{}, nf: raw.Canon()})
 	}
 	return recs, nil
 }
@@ -309,6 +344,8 @@ func main() {
 	outf := flag.String("out", "", "ndjson")
 	work := flag.String("work", "", "scratch")
 	par := flag.Int("par", 16, "parallel worlds")
+	seed := flag.Int64("seed", 1, "seed of the list order")
+	fresh := flag.Int("fresh", 0, "further runs of every history with another list order")
 	flag.Parse()
 	world.Chdir()
 	data, err := os.ReadFile(*in)
@@ -333,7 +370,21 @@ func main() {
 		go func(i int) {
 			defer wg.Done()
 			defer func() { <-sem }()
-			res[i], errs[i] = runHistory(*work, fmt.Sprintf("h%d", i), hs[i], rawhs[i])
+			id := fmt.Sprintf("h%d", i)
+			res[i], errs[i] = runHistory(*work, id, *seed*7919+int64(i), hs[i], rawhs[i])
+			for f := 1; f <= *fresh && errs[i] == nil; f++ {
+				var again []rec
+				again, errs[i] = runHistory(*work, id, *seed*7919+int64(i)+int64(f)*104729, hs[i], rawhs[i])
+				for k := range again {
+					if d := cfgnf.Diff(res[i][k].nf, again[k].nf); len(d) > 0 && res[i][k].Det {
+						res[i][k].Det = false
+						if len(d) > 4 {
+							d = d[:4]
+						}
+						res[i][k].DetDiff = d
+					}
+				}
+			}
 		}(i)
 	}
 	wg.Wait()
